@@ -61,4 +61,6 @@ def main(tier):
     chk.run("R-ASSERTEFFECT", FL.asserteffect, r, floor=100)
     chk.run("R-LINESPLIT", K.linesplit, r, side="printer", floor=1)
     chk.run("R-REFKIND", RR.refkind, r, s, floor=10)
+    chk.run("R-TYPEANNOT", FL.typeannot, cx.repo, floor=14)
+    chk.run("R-ONEOFGUARD", RR.oneofguard, cx.repo, floor=25)
     return chk.finish()
